@@ -635,6 +635,24 @@ func (ev *SpecEnv) callExpr(x *ast.CallExpr) (Val, types.Type) {
 	case "pow2":
 		need(1)
 		return UConst{Pow2(ev.constArg(x.Args[0]))}, nil
+	case "ispow2":
+		// ispow2(c): c is a power of two; the argument must be a constant (side conditions of lemma macros that
+		// only hold for ranges of the form [-2^k, 2^k - 1] or [0, 2^k - 1])
+		need(1)
+		v, _ := ev.eval(x.Args[0])
+		var c *big.Int
+		switch t := v.(type) {
+		case UConst:
+			c = t.V
+		case Scalar:
+			if t.T.IsConst() {
+				c = t.T.Val
+			}
+		}
+		if c == nil {
+			ev.fail("ispow2 needs a constant argument: %s", exprString(x.Args[0]))
+		}
+		return Scalar{BoolC(c.Sign() > 0 && new(big.Int).And(c, new(big.Int).Sub(c, big.NewInt(1))).Sign() == 0)}, types.Typ[types.Bool]
 	case "beval":
 		// beval(s): the unsigned big-endian value of byte slice s (uninterpreted over contents, offset, length)
 		need(1)
